@@ -190,6 +190,8 @@ def gates(c, tier):
         "cli:gaps-ok": 150,
         "cli:tag:3-haplotypes": 40,
         "cli:all_haplotigs-file-written": 60,
+        "label:in:agp-v1.1-gaps": 100,
+        "label:in:agp-component-types": 100,
         "label:in:via-tpf-text": 500,
         "label:in:via-agp-text": 500,
     }
